@@ -1,10 +1,10 @@
 //! C19 — Arbitrary for Piecewise<T>: error or a well-formed function, never a panic; every returned
 //! value evaluates through all three paths without panic and with identical segment choice.
 
-use crate::flat::*;
-use crate::gen::*;
-use crate::mon::*;
-use crate::probe::tagval;
+use ppv::flat::*;
+use ppv::gen::*;
+use ppv::mon::*;
+use ppv::probe::tagval;
 use arbitrary::{Arbitrary, Unstructured};
 use piecewise_polynomial::*;
 use serde_json::json;
